@@ -410,11 +410,12 @@ func (a *analysis) apply(st *State, p *Path, c Ctrl, cls int, via string) (Ctrl,
 				popped = true
 			}
 		case EReadBack:
+			e.Off += rewind // an earlier rewind in the same arm shifts what curIndex-k denotes
 			if int(nc.Cons) < e.Off {
 				a.finding("S1d", st, p, fmt.Sprintf("data[curIndex-%d] is read when only %d byte(s) are known to have been consumed: unsigned underflow / index out of range", e.Off, nc.Cons), c, via)
 			}
 		case ERewind:
-			if int(nc.Cons) < e.Off {
+			if int(nc.Cons) < e.Off+rewind {
 				a.finding("S1d", st, p, fmt.Sprintf("curIndex -= %d when only %d byte(s) are known to have been consumed: unsigned underflow", e.Off, nc.Cons), c, via)
 			}
 			rewind += e.Off
@@ -427,6 +428,10 @@ func (a *analysis) apply(st *State, p *Path, c Ctrl, cls int, via string) (Ctrl,
 			}
 		case EEvent:
 			events++
+			e.Off += rewind // position = (curIndex - rewound so far) - k
+			if jump {
+				m.problem(e.Pos, "%s: lexeme event after a library jump in one arm (offset unknown)", st.Name)
+			}
 			if int(nc.Cons) < e.Off {
 				a.finding("S1d", st, p, fmt.Sprintf("event position curIndex-%d computed when only %d byte(s) are known to have been consumed: unsigned underflow", e.Off, nc.Cons), c, via)
 			}
